@@ -146,6 +146,25 @@ func (w *c07World) handshake(tag, srv string, cmd int, authCmd ...int) {
 			return [][]byte{f}
 		}
 	}
+	if brk == "invalidate-in-flight" {
+		// while this connection's resumption is in flight (request sent, reply on its way) the
+		// session is invalidated from elsewhere - another connection's failure, an explicit call
+		inflight := ""
+		o.HookC2S = func(i int, f []byte) [][]byte {
+			if i == 0 && len(f) > 13 {
+				if ad := (&wireReader{b: f[5+8:]}).ad(); ad.str("UseSession") == "YES" {
+					inflight = ad.str("Sid")
+				}
+			}
+			return [][]byte{f}
+		}
+		o.HookS2C = func(i int, f []byte) [][]byte {
+			if i == 0 && inflight != "" {
+				w.cache.Invalidate(inflight)
+			}
+			return [][]byte{f}
+		}
+	}
 	if brk == "stall-cancel" {
 		// the peer takes the request but never answers; the client's context is
 		// cancelled while it waits for the reply (its second connection operation)
@@ -203,6 +222,15 @@ func (w *c07World) handshake(tag, srv string, cmd int, authCmd ...int) {
 			}
 		}
 		ok := r.C.Err == nil && r.S.Err == nil && r.C.Resumed
+		if brk == "invalidate-in-flight" && s != nil {
+			// whatever this connection went on to do, the session was invalidated: no later
+			// handshake may be routed to it
+			s.cliAlive = false
+			if ok {
+				w.res.Outcome("resumed-while-invalidated-in-flight")
+				return
+			}
+		}
 		if ok {
 			if s != nil && !s.minted {
 				s.exp = w.now + 1800
@@ -292,7 +320,7 @@ func c07Events() []string {
 	// the client process mints a claim session of its own (tag T1 towards A, no tag towards B,
 	// command 5) and the server imports the claim id
 	ev = append(ev, "mint:T1:A", "mint::B")
-	return append(ev, "restartA", "restartB", "break-request", "break-reply", "break-stall", "adv1860", "adv3660", "invalidate-last", "sweep")
+	return append(ev, "restartA", "restartB", "break-request", "break-reply", "break-stall", "break-invalidate", "adv1860", "adv3660", "invalidate-last", "sweep")
 }
 
 func (w *c07World) apply(ev string) bool {
@@ -359,6 +387,12 @@ func (w *c07World) apply(ev string) bool {
 			return false
 		}
 		w.brk = "stall-cancel"
+		return true
+	case ev == "break-invalidate":
+		if w.brk != "" || len(w.sess) == 0 {
+			return false
+		}
+		w.brk = "invalidate-in-flight"
 		return true
 	case ev == "break-request" || ev == "break-reply":
 		if w.brk != "" || len(w.sess) == 0 {
